@@ -29,7 +29,7 @@ def run(ctx):
                    max_edges=4 if quick else 5)
     if not quick:
         cc.model_check(ctx, "c27_j1b", N=5, T=2, iters=[0], eps=[0, 1, 2], max_edges=5, fixed_mode="leaves")
-    insts = cc.generate(ctx, "c27_j2", N=3 if quick else 4, T=2, iters=[0, 1], eps=[0, 1],
+    insts = cc.generate(ctx, "c27_j2", N=3 if quick else 4, T=2, iters=[0, 1], eps=[0, 1, 2],
                         max_edges=3 if quick else 4)
     ctx.exhaustive = True
     cap = 1500 if quick else 20000
